@@ -27,6 +27,12 @@ CHECKS = {
  'C10': dict(level='exploration', technique='stateful property-based testing: generated histories with pause/resume commands at drawn points; post-command invariants, creation monitor, and a differential oracle against the unpaused run',
    text='Generated programs (direct, nested sub-workflows, with-items) run under drawn schedules with a drawn plan of pause/resume commands on the root or on nested executions; everything still paused is resumed at the end. Checked: an acknowledged pause leaves the execution and its unfinished sub-executions PAUSED; no task execution is created in an execution that is PAUSED before and after the creating event; no undeclared exception in any engine event; and - for programs that two unpaused runs under different schedules show to be order independent - the canonical final rows after resume equal those of the run that was never paused.',
    design='3 C10', note=ASSUME + '; programs with fail/succeed commands and with-items over sub-workflows are outside the generated domain (the latter is known finding withitems-subwf-pause, replayed by a sub-check); join-retrigger shape classified and counted'),
+ 'C11': dict(level='exploration', technique='stateful property-based testing: generated histories with a stop/cancel command on a drawn (root or nested, possibly paused) execution at a drawn point, followed by all remaining events and late results; tree invariants at quiescence and after every later step',
+   text='Generated nested / with-items / asynchronous programs run under drawn schedules; one stop(state, message) is issued through the engine client on a drawn execution at a drawn step (optionally after a pause of some execution), then the remaining events, late and asynchronous results are delivered in drawn order. Checked: a RUNNING (or, for cancel, PAUSED) target holds the requested state with the message in state_info/output, never changes afterwards, gets no new task; after cancel every unfinished descendant is CANCELLED with its parent task and nothing is created below; each finished child is reported to its parent exactly once (counted on the message bus); stopping a finished execution changes nothing; no undeclared exception.',
+   design='3 C11', note=ASSUME),
+ 'C12': dict(level='exploration', technique='differential property-based testing: run with a failing task + rerun (reset on/off, repeated) or skip, compared with the run that had the new outcome from the start; post-command state invariants; negative cases',
+   text='Generated programs (direct, nested, with-items, joins downstream) whose assignment lets exactly one task fail unhandled are run to the ERROR end; the failed task is rerun through the engine client with a new outcome (reset on/off, optionally failing once more first) or skipped, and the run continues under a second drawn schedule. Right after the command the task, its workflow and every enclosing workflow and parent task must be RUNNING (SKIPPED for skip); at quiescence the canonical rows must equal those of the run in which the task produced the new result the first time (reference run checked for order independence); skip must follow on-success; a SUCCESS task must not be rerunnable.',
+   design='3 C12', note=ASSUME + '; with-items tasks with a concurrency limit are not rerun by the generator (known finding withitems-rerun-concurrency, replayed by a sub-check)'),
 }
 NA = []
 def main():
